@@ -270,3 +270,100 @@ theorem wf_idempotentFill (f : Nat → Nat) (n : Nat) (js : List Nat) : WellForm
   fresh := rfl
 
 end LA.LazyInit
+
+/-! ### Every look-up is answered: a finished thread has observed its whole `use` list -/
+namespace LA.LazyInit
+
+/-- The slots a list of instructions will still look up. -/
+def pending : List Instr → List Nat
+  | [] => []
+  | .read j :: rest => j :: pending rest
+  | _ :: rest => pending rest
+
+/-- Progress relation between a thread as started (`t0`) and as it is now. -/
+def Tracks (t0 t : Thread) : Prop :=
+  (∀ j, Instr.read j ∉ t.init) ∧ t.obs.map Prod.fst ++ pending t.use = pending t0.use
+
+theorem observe_fst (m : Mem) (ins : Instr) : (observe m ins).map Prod.fst = pending [ins] := by
+  cases ins <;> simp [observe, pending]
+
+theorem pending_cons (ins : Instr) (rest : List Instr) : pending (ins :: rest) = pending [ins] ++ pending rest := by
+  cases ins <;> simp [pending]
+
+theorem stepThread_tracks {t0 t : Thread} (m : Mem) (h : Tracks t0 t) : Tracks t0 (stepThread m t).2 := by
+  obtain ⟨hnr, heq⟩ := h
+  unfold stepThread
+  split
+  · rename_i ins rest hinit
+    split
+    · exact ⟨by simp, heq⟩
+    · refine ⟨fun j hj => hnr j (by rw [hinit]; simp [hj]), ?_⟩
+      have : observe m ins = [] := by
+        cases ins with
+        | read j => exact absurd (by rw [hinit]; simp) (hnr j)
+        | checkFlag => rfl
+        | setFlag => rfl
+        | store i v => rfl
+      simpa [this] using heq
+  · rename_i hinit
+    split
+    · rename_i ins rest huse
+      refine ⟨by simp [hinit], ?_⟩
+      rw [huse, pending_cons] at heq
+      simp only [List.map_append, observe_fst, List.append_assoc]
+      exact heq
+    · exact ⟨hnr, heq⟩
+
+/-- All threads of a system track the pool they were started from. -/
+def STracks (ts : List Thread) (s : Sys) : Prop :=
+  s.thr.length = ts.length ∧ ∀ (k : Nat) (t0 t : Thread), ts[k]? = some t0 → s.thr[k]? = some t → Tracks t0 t
+
+theorem step_tracks {ts : List Thread} {s : Sys} (h : STracks ts s) (k : Nat) : STracks ts (s.step k) := by
+  unfold Sys.step
+  split
+  · exact h
+  · rename_i t hk
+    refine ⟨by simp [h.1], ?_⟩
+    intro i t0 u h0 hu
+    simp only [List.getElem?_set] at hu
+    by_cases hik : k = i
+    · subst hik
+      have hlt : k < s.thr.length := by
+        rcases Nat.lt_or_ge k s.thr.length with hlt | hge
+        · exact hlt
+        · rw [List.getElem?_eq_none hge] at hk; cases hk
+      simp [hlt] at hu
+      subst hu
+      exact stepThread_tracks s.mem (h.2 k t0 t h0 hk)
+    · simp [hik] at hu
+      exact h.2 i t0 u h0 hu
+
+theorem run_tracks {ts : List Thread} (ks : List Nat) {s : Sys} (h : STracks ts s) : STracks ts (s.run ks) := by
+  induction ks generalizing s with
+  | nil => exact h
+  | cons k ks ih => exact ih (step_tracks h k)
+
+theorem start_tracks {f : Nat → Nat} {n : Nat} {ts : List Thread} (h : ∀ t ∈ ts, WellFormed f n t) :
+    STracks ts (start n ts) := by
+  refine ⟨rfl, ?_⟩
+  intro k t0 t h0 ht
+  have : t0 = t := by simp [start] at ht; rw [h0] at ht; exact Option.some.inj ht
+  subst this
+  exact ⟨(h t0 (List.mem_of_getElem? h0)).noRead, by simp [(h t0 (List.mem_of_getElem? h0)).fresh]⟩
+
+theorem obs_eq_of_ok {f : Nat → Nat} {n : Nat} (obs : List (Nat × Option Nat))
+    (h : ∀ p ∈ obs, p.2 = (final f n)[p.1]?) :
+    obs = (obs.map Prod.fst).map (fun j => (j, (final f n)[j]?)) := by
+  induction obs with
+  | nil => rfl
+  | cons p ps ih =>
+    have hp := h p (by simp)
+    simp only [List.map_cons, List.cons.injEq]
+    exact ⟨by rw [← hp], ih (fun q hq => h q (by simp [hq]))⟩
+
+theorem pending_reads (js : List Nat) : pending (reads js) = js := by
+  induction js with
+  | nil => rfl
+  | cons j js ih => simpa [reads, pending] using ih
+
+end LA.LazyInit
